@@ -255,4 +255,87 @@ def verify_prepare_population():
     return fv
 
 
+def verify_chunk_access():
+    """the three accessors between prepare() and elaborate():
+      _Shadow.chunks()          one arbitrary item of `self._chunks.items()`: exactly that (offset, chunk) pair is yielded, nothing else, no early exit
+      Chunk.__init__            keeps `tuple(registers)` of the registers handed in
+      Chunk.registers()         yields from exactly that kept tuple"""
+    fv = FnVerifier("csr.bus.Multiplexer._Shadow.chunks / Chunk.__init__ / Chunk.registers", [])
+    # --- chunks()
+    fn = find_def(FILE, "Multiplexer._Shadow.chunks")
+    ex = Exec(FILE, "Multiplexer._Shadow", axioms=[])
+    CO = z3.Int("item_offset"); CH = SymObj("Chunk", "item chunk")
+
+    class TblModel:
+        def call_items(self, ex_, recv, a, kw, q_, node):
+            return [(("items-of", recv), q_)]
+    tbl = SymObj("dict", "self._chunks", model=TblModel())
+    self_ = SymObj("Multiplexer._Shadow", "self"); self_.init_fields["_chunks"] = tbl
+    marks = []
+
+    def loop(ex_, st_node, path):
+        src = None
+        for v, _ in ex_.eval(st_node.iter, path.fork()):
+            src = v
+        ex_.oblige("chunks()-iterates-the-table-prepare()-filled", path, z3.BoolVal(src == ("items-of", tbl)), st_node)
+        base = len(ex_.yields)
+        for kind, _, q2 in ex_.assign(st_node.target, Tup((CO, CH)), path.fork(), st_node):
+            for kind2, val2, q3 in ex_.block(st_node.body, q2):
+                marks.append((kind2, q3, ex_.yields[base:]))
+        return [("fall", None, path)]
+
+    class _Every(dict):
+        def get(self, key, default=None):
+            return loop
+    ex.loop_invariants = _Every()
+    q = Path(); q.env["self"] = self_
+    outs = ex.run(fn, q)
+    fv.paths += len(outs)
+    for k, (kind, q3, ys) in enumerate(marks):
+        ok = kind in ("fall", "continue") and len(ys) == 1 and isinstance(ys[0][0], tuple) and len(ys[0][0]) == 2 and \
+            isinstance(ys[0][0][0], z3.ExprRef) and ys[0][0][0].eq(CO) and ys[0][0][1] is CH
+        fv.add("chunks():each-item-yielded-once-as-(offset, chunk)", f"item{k}", q3.pc, z3.BoolVal(bool(ok)))
+    fv.add("chunks():nothing-yielded-outside-the-loop", "all", [], z3.BoolVal(len(ex.yields) == sum(len(m[2]) for m in marks)))
+    fv.add("cover:chunks-iteration", "vacuity", [], z3.BoolVal(len(marks) >= 1))
+    fv.add_engine_obligations(ex)
+    # --- Chunk.__init__
+    fn = find_def(FILE, "Multiplexer._Shadow.Chunk.__init__")
+    ex = Exec(FILE, "Multiplexer._Shadow.Chunk", axioms=[])
+    regs = Opaque("registers argument")
+    shadow = SymObj("Multiplexer._Shadow", "shadow")
+    shadow.init_fields.update({"name": Opaque("shadow name"), "granularity": z3.Int("granularity")})
+    kept = SymObj("tuple", "tuple(registers)")
+    ex.contracts["tuple"] = lambda e_, r, a, k, q_, n: [(kept, q_)] if (len(a) == 1 and a[0] is regs) else (_ for _ in ()).throw(Unsupported("tuple() of something else"))
+    ex.contracts["Signal"] = lambda e_, r, a, k, q_, n: [(SymObj("Signal", "a signal"), q_)]
+    c_self = SymObj("Chunk", "self")
+    q = Path(); q.env.update({"self": c_self, "shadow": shadow, "offset": z3.Int("offset"), "registers": regs})
+    outs = ex.run(fn, q)
+    fv.paths += len(outs)
+    for k, o in enumerate(outs):
+        fv.add("Chunk.__init__:keeps-the-tuple-of-the-registers-handed-in", f"path{k}", o.path.pc,
+               z3.BoolVal(o.kind != "raise" and any(k_[0] == id(c_self) and v is kept for k_, v in o.path.heap.items())))
+    fv.add_engine_obligations(ex)
+    # --- Chunk.registers()
+    fn = find_def(FILE, "Multiplexer._Shadow.Chunk.registers")
+    ex = Exec(FILE, "Multiplexer._Shadow.Chunk", axioms=[])
+    c_self = SymObj("Chunk", "self"); c_self.init_fields["_registers"] = kept
+    yf = []
+    orig = ex.do_yield
+
+    def do_yield(node, path, orig=orig, yf=yf, ex=ex):
+        if isinstance(node, ast.YieldFrom):
+            out = []
+            for v, p in ex.eval(node.value, path):
+                yf.append(v); out.append(("fall", None, p))
+            return out
+        return orig(node, path)
+    ex.do_yield = do_yield
+    q = Path(); q.env["self"] = c_self
+    outs = ex.run(fn, q)
+    fv.paths += len(outs)
+    fv.add("Chunk.registers():yields-from-exactly-the-kept-tuple", "all", [], z3.BoolVal(len(yf) == 1 and yf[0] is kept and not ex.yields))
+    fv.add_engine_obligations(ex)
+    return fv
+
+
 ALL = [verify_prepare_terminates]
